@@ -220,3 +220,94 @@ class Result:
 def rng_for(seed, *salt):
     h = hashlib.sha256(("%s|%s" % (seed, "|".join(map(str, salt)))).encode()).digest()
     return random.Random(int.from_bytes(h[:8], "big"))
+
+
+# ----------------------------------------------------------------------------- batching
+def batch_real_scan(scratch, sources, ignore_nosec=False, profile=None, config_file=None, prefix="m"):
+    """sources: list of bytes.  Writes each to its own fresh file, scans them in ONE manager run
+    (files are independent: C08 checks that separately), returns list of per-file dicts."""
+    from bandit.core import config as b_config, manager as b_manager
+    linecache.clearcache()
+    take_log()
+    scratch.k += 1
+    d = os.path.join(scratch.root, f"b{scratch.k}")
+    os.makedirs(d)
+    paths = []
+    for i, data in enumerate(sources):
+        p = os.path.join(d, f"{prefix}{i:05d}.py")
+        with open(p, "wb") as f:
+            f.write(data)
+        paths.append(p)
+    conf = b_config.BanditConfig(config_file)
+    mgr = b_manager.BanditManager(conf, "file", profile=profile, ignore_nosec=ignore_nosec)
+    mgr.discover_files(paths)
+    mgr.run_tests()
+    logs = take_log()
+    by = {p: {"findings": [], "errors": [], "skipped": None, "path": p} for p in paths}
+    for r in mgr.results:
+        by[r.fname]["findings"].append(finding_tuple(r))
+    for name, reason in mgr.skipped:
+        if name in by:
+            by[name]["skipped"] = reason
+    for rec in logs:
+        if rec.levelno >= logging.ERROR:
+            msg = rec.getMessage()
+            m = re.match(r"Bandit internal error running: (\S+) on file (\S+) at line", msg)
+            if m and m.group(2) in by:
+                by[m.group(2)]["errors"].append(m.group(1))
+    out = []
+    for p in paths:
+        e = by[p]
+        e["findings"].sort()
+        e["errors"].sort()
+        md = mgr.metrics.data.get(p, {})
+        e["nosec"] = md.get("nosec", 0)
+        e["skipped_tests"] = md.get("skipped_tests", 0)
+        e["metrics"] = md
+        out.append(e)
+    shutil.rmtree(d, ignore_errors=True)
+    return out
+
+
+def norm_findings(fs):
+    return sorted((f[0], f[1], f[2], f[3], tuple(f[4]), f[5]) for f in fs)
+
+
+def compare_scan(real, model, blacklist_ids=None):
+    """Project the real findings on the IDs the model knows; returns None if equal else a diff dict."""
+    modelled = set(model.get("modelled", []))
+    if "B001" in modelled and blacklist_ids:
+        modelled |= set(blacklist_ids)
+    rf = norm_findings([f for f in real["findings"] if f[0] in modelled])
+    mf = norm_findings(model["findings"])
+    diff = {}
+    if rf != mf:
+        diff["real_only"] = [list(x) for x in sorted(set(rf) - set(mf))][:6]
+        diff["model_only"] = [list(x) for x in sorted(set(mf) - set(rf))][:6]
+        if not diff["real_only"] and not diff["model_only"]:
+            diff["multiplicity"] = True
+    fm = func_ids()
+    rc = sorted(e for e in real["errors"] if fm.get(e, e) in modelled or e not in fm)
+    mc = sorted(model.get("crashes", []))
+    if rc != mc:
+        diff["real_crashes"] = rc
+        diff["model_crashes"] = mc
+    return diff or None
+
+
+def blacklist_ids():
+    from bandit.core import extension_loader
+    return set(extension_loader.MANAGER.blacklist_by_id)
+
+
+_func_ids = None
+
+
+def func_ids():
+    """check function __name__ -> test id (crash reports name the function)"""
+    global _func_ids
+    if _func_ids is None:
+        from bandit.core import extension_loader
+        _func_ids = {p.plugin.__name__: p.plugin._test_id for p in extension_loader.MANAGER.plugins}
+        _func_ids["blacklist"] = "B001"
+    return _func_ids
